@@ -242,7 +242,19 @@ impl<'a> Interp<'a> {
         let seg_before: Vec<usize> = (1..=nparts as u32).map(|p| self.observe(p).len()).collect();
         let size_before: Vec<u64> = (1..=nparts as u32).map(|p| self.observe(p).iter().map(|s| s.size).sum()).collect();
         let n = self.node();
-        let r = n.block_on(async { self.cl().send_messages(&sid(), &tid(), &partitioning, &mut sdk_msgs).await });
+        let over_http = self.via_http();
+        let r = if over_http {
+            let h = self.http.as_ref().unwrap();
+            n.block_on(async { h.send_messages(&sid(), &tid(), &partitioning, &mut sdk_msgs).await })
+        } else {
+            n.block_on(async { self.cl().send_messages(&sid(), &tid(), &partitioning, &mut sdk_msgs).await })
+        };
+        if over_http {
+            self.out.label("send-over-http");
+            if self.focus() == "C13" && !specs.is_empty() {
+                self.out.nontrivial = true;
+            }
+        }
         if let Err(e) = &r {
             if conn_lost(e) {
                 self.check_panics("send")?;
